@@ -260,7 +260,8 @@ def menu(f, level, tier):
     elif k == 'text':
         full = [None, '', 'a', 'é', '日本', 'é' * 126, 'x' * 253, 'é' * 127]
     elif k == 'name':
-        full = [None, [], [C1], [C1, C2, C3], [CL], [C1] * 126, [C1, CL, C3], TN1, TN2, TN3]
+        # (the last two: components whose type number takes three octets - 300 and 64767 - and one at the largest one-octet type)
+        full = [None, [], [C1], [C1, C2, C3], [CL], [C1] * 126, [C1, CL, C3], TN1, TN2, TN3, [ts.tlv(300, b'abc'), C1], [ts.tlv(252, b''), ts.tlv(64767, b'z')]]
     elif k == 'model':
         subs = [menu(g, 1, tier) for g in f['fields']]
         full = [None, {}] + [dict(zip([g['n'] for g in f['fields']], combo)) for combo in itertools.product(*subs)][:12]
